@@ -931,6 +931,13 @@ def _httparse_parse(call):
     l = call.leaf(0)
     if l[0] == "ref":
         st.write_tree(l[1], l[2], leaf_tree(state))
+    # contract: Complete(n) => n <= input.len()
+    il = call.leaf(1)
+    n_in = call.interp.len_of(st, il) if il[0] == "ref" else (("term", ("len", il[1])) if il[0] == "term" else None)
+    if n_in is not None:
+        nn = ("term", ("proj", res[1], (("v", "Ok"), ("f", "0"), ("v", "Complete"), ("f", "0"))))
+        st.facts[("lt", n_in, nn)] = ("bool", False)
+        st.facts.setdefault(nn[1], ("iv", ((0, (1 << 63) - 1),)))
     return call.ret_leaf(res)
 
 
